@@ -206,6 +206,11 @@ def classify(f, k, sig, e, only_fn, only_fields, only_locals, gname):
         if sig in PURE_CALLEES or (tg is not None and readonly(tg)):
             return True, 'pure read (accessor)'
         cal = e.get('callee') or ''
+        if cal.startswith('std::_Swallow_assign::operator='):
+            # `std::ignore = expr;` writes nothing: the value is discarded (the operand call is a statement element of its own)
+            if gname in CONTROL_EXCEPTIONS:
+                return True, 'listed exception: ' + CONTROL_EXCEPTIONS[gname]
+            return True, 'value discarded through std::ignore'
         if cal.startswith('std::') or cal.startswith('__') or e.get('ck') in ('ctor', 'conv') or (e.get('ck') == 'op' and e.get('op') not in ('=', '+=', '-=', '++', '--')):
             # library calls / constructions of temporaries / comparison operators: no shared-state write
             if e.get('ck') == 'op' and e.get('method') and e.get('op') in ('=',):
